@@ -754,6 +754,53 @@ def use_sites(check, n):
     return False
 
 
+def helper_generics_part(check):
+    """generic arguments and parameters keep their order: the helper struct a struct variant of a generic tagged enum is written as
+    declares its parameters in the order in which the references to it pass the arguments (Swift, Kotlin, Scala), whatever order the
+    variant's fields mention the enum's parameters in"""
+    rng = check.rng
+    ts = [m_path("typeshare")]
+    mreqs, rreqs, meta = [], [], []
+    g = Gen(rng)
+    for k in range(24 if check.thorough else 9):
+        lang = ["swift", "kotlin", "scala"][k % 3]
+        params = rng.sample(["T", "E", "K", "V"], rng.randint(2, 3))
+        order = list(params)
+        rng.shuffle(order)                       # the order in which the fields mention them
+        wrap = lambda p, j: [t_path(p), t_path("Vec", [t_path(p)]), t_path("Option", [t_path(p)]), t_path("HashMap", [t_path("String"), t_path(p)])][j % 4]
+        fs = [field([], "f%d" % j, wrap(p, j + k)) for j, p in enumerate(order)]
+        en = {"kind": "enum", "attrs": list(ts) + [m_list("serde", [m_nv("tag", lit_s("t")), m_nv("content", lit_s("c"))])], "ident": "Outcome%d" % k,
+              "generics": [("ty", p) for p in params],
+              "variants": [{"attrs": [], "ident": "Failed", "fields": ("named", fs)},
+                           {"attrs": [], "ident": "Done", "fields": ("unnamed", [field([], None, t_path(params[0]))])}]}
+        f = {"attrs": [], "items": [en]}
+        cfg = cfg_for(lang, {}, prefix=rng.choice(["", "OP"]))
+        cfg["version_header"] = False
+        m, r, texts = l2.requests(lang, cfg, [{"crate": "", "file_name": "lib.rs", "path": "src/lib.rs", "file": f}], g)
+        mreqs.append(m); rreqs.append(r); meta.append((lang, params, order, texts[0], cfg))
+    mans = model(mreqs)
+    rans = runner(rreqs)
+    for (lang, params, order, src, cfg), ma, ra in zip(meta, mans, rans):
+        check.saw(("helper-generics", lang, src), nontrivial=params != order)
+        check.count("helper-generics-" + lang)
+        ma_n, ra_n = l2.norm(ma), l2.norm(ra)
+        case = {"lang": lang, "config": cfg, "source": src}
+        if "ok" in ra_n:
+            out = "".join(ra_n["ok"].values())
+            lists = re.findall(r"\b\w*FailedInner\s*[<\[]([^>\]]*)[>\]]", out)
+            names = [[x.split(":")[0].strip() for x in l.split(",")] for l in lists]
+            if not names or any(n != names[0] for n in names):
+                check.violation("%s: the helper struct of a struct variant declares its generic parameters as %s, references pass %s (fields "
+                                "mention the enum's parameters %s in the order %s)" % (lang, names[:1], names[1:], params, order),
+                                case=case, impl=ra, model=ma, failing_input=True)
+                return True
+        if ma_n != ra_n:
+            check.violation("generate_types differs from the model on a generic enum with a struct variant (%s)" % lang, case=case, impl=ra, model=ma,
+                            failing_input=False, broken="correspondence L2 generate_types (helper structs; theorem TsV.C05.C05_compositional)")
+            return True
+    return False
+
+
 # ------------------------------------------------------------------ the check
 
 WITNESSES = {
@@ -808,6 +855,8 @@ def run(check):
         return
     # (d) use sites
     if use_sites(check, 1200 if check.thorough else 300):
+        return
+    if helper_generics_part(check):
         return
     # known findings: replay the stored witnesses
     for kid, (lang, prim, target) in WITNESSES.items():
